@@ -287,6 +287,33 @@ macro_rules! weier_curve {
                     let r = p.set_projective(x, y, z);
                     Ok(format!("{} {}", ou32(r), ohex(&p.encode_uncompressed())))
                 },
+                // the same constructors, result kept in the destination register (dirty receiver), status prepended
+                "set_projective" => {
+                    let x = <$F>::decode_reduce(&bytes(arg(a, 0)?)?);
+                    let y = <$F>::decode_reduce(&bytes(arg(a, 1)?)?);
+                    let z = <$F>::decode_reduce(&bytes(arg(a, 2)?)?);
+                    let mut p = crrl::$m::Point::BASE.double();
+                    let r = p.set_projective(x, y, z);
+                    let o = crrl::$m::Point::from_projective(x, y, z);
+                    if o.is_some() != (r != 0) { return Err("from_projective and set_projective disagree".into()); }
+                    let e = put(p, rg)?;
+                    Ok(format!("{} {}", ou32(r), e))
+                },
+                "set_affine" => {
+                    let x = <$F>::decode_reduce(&bytes(arg(a, 0)?)?);
+                    let y = <$F>::decode_reduce(&bytes(arg(a, 1)?)?);
+                    let mut p = crrl::$m::Point::BASE.double();
+                    let r = p.set_affine(x, y);
+                    let o = crrl::$m::Point::from_affine(x, y);
+                    if o.is_some() != (r != 0) { return Err("from_affine and set_affine disagree".into()); }
+                    let e = put(p, rg)?;
+                    Ok(format!("{} {}", ou32(r), e))
+                },
+                "to_projective" => {
+                    let p = pt(0, rg)?;
+                    let (x, y, z) = p.to_projective();
+                    Ok(format!("{} {} {}", ohex(&x.encode()), ohex(&y.encode()), ohex(&z.encode())))
+                },
                 "wextra" => { $xf(a, rg) },
             });
     };
